@@ -7,6 +7,7 @@ bound.  Part B: tensor-level evaluation (`Alg/GcpFg.lean`).
 Only property theorems and their non-vacuity examples live here.
 -/
 import PyttbModel.Lemmas.GcpHandles
+import PyttbModel.Lemmas.GcpFg
 set_option linter.unusedTactic false
 set_option linter.unreachableTactic false
 set_option linter.unnecessarySeqFocus false
@@ -85,15 +86,21 @@ theorem C12_deriv_negative_binomial (x r m : ℝ) (hm : 0 ≤ m) :
   refine h.congr_deriv ?_
   simp [negative_binomial, negative_binomial_grad, D, evalR] <;> gcp_close
 
-/-- The pair of the pinned commit was not a derivative pair: with `r = 2`, `x = 3` the old
-gradient `(r + 1)/(1 + m) - x/(m + EPS)` is not the derivative of the loss at `m = 1`
+/-- The pair of the pinned commit (explicit copies `negbinLossPinned`, `negbinGradPinned` of the
+old source, not the generated definitions) was not a derivative pair: with `r = 2`, `x = 3` the
+old gradient `(r + 1)/(1 + m) - x/(m + EPS)` is not the derivative of the loss at `m = 1`
 (it is off by `(x - 1)/(m + 1) = 1`).  Fixed in /repo by 782e982. -/
 theorem C12_negbin_counterexample :
-    ¬ HasDerivAt (fun m => negative_binomial.evalR 3 2 m) (negbinGradPinned.evalR 3 2 1) 1 := by
+    ¬ HasDerivAt (fun m => negbinLossPinned.evalR 3 2 m) (negbinGradPinned.evalR 3 2 1) 1 := by
   intro h
-  have h1 := C12_deriv_negative_binomial 3 2 1 (by norm_num)
+  have he := EPS_pos
+  have h1 := hasDerivAt_D 3 2 negbinLossPinned 1
+    (by simp only [negbinLossPinned, Defined, evalR]; norm_num; linarith)
   have := h.unique h1
-  norm_num [negbinGradPinned, negative_binomial_grad, evalR] at this
+  norm_num [negbinGradPinned, negbinLossPinned, D, evalR] at this
+  have e : (3 : ℝ) / (1 + ((EPS : ℚ) : ℝ)) = 3 * (1 + ((EPS : ℚ) : ℝ))⁻¹ := div_eq_mul_inv _ _
+  rw [e] at this
+  linarith
 
 /-- Beta divergence `(1/b)(m + EPS)ᵇ - (1/(b-1)) x (m + EPS)ᵇ⁻¹` on `m ≥ 0`, `b ∉ {0, 1}`. -/
 theorem C12_deriv_beta (x b m : ℝ) (hm : 0 ≤ m) (hb0 : b ≠ 0) (hb1 : b ≠ 1) :
@@ -159,5 +166,153 @@ theorem C12_deriv_table (o : Objective) (x p m : ℝ) (hp : ParamOK o p)
 
 example : ParamOK .HUBER 1 ∧ (setupTable .POISSON).lower.holds 2 ∧ ParamOK .BETA (1/2) := by
   simp [ParamOK, setupTable, Bound.holds]
+
+
+/-! ### Part B — tensor-level evaluation (`fg.evaluate`, `fg_est.estimate`) -/
+
+/-- The objective `evaluate` returns for a Kruskal model is the (optionally weighted) sum of
+the loss over all entries: `Σ_i w_i · f(x_i, m_i)` with `m_i` the value the model denotes. -/
+theorem C12_objective_sum {α : Type} [Add α] [Mul α] [One α] [Zero α] (K : Ktensor α) (X : Dense α)
+    (W : Option (Dense α)) (f : Handle α) (g : Option (Handle α))
+    (hN : 2 ≤ K.factors.length) (hX : X.shape = K.shape) (hXwf : X.WF)
+    (hW : ∀ W', W = some W' → W'.shape = K.shape ∧ W'.WF) :
+    ∃ G, evaluate K X W (some f) g = .ok ⟨some (gcpObjective K X W f), G⟩ :=
+  ⟨_, evaluate_ok K X W (some f) g (Or.inl rfl) hN hX hXwf hW⟩
+
+/-- Computing all mode gradients at once equals computing them one mode at a time: the `k`-th
+matrix `evaluate` returns is the mode-`k` MTTKRP (by its defining sum) of the weighted
+derivative tensor with the factor matrices.  (That `tensor.mttkrps` itself agrees with the
+per-mode `tensor.mttkrp` on the real code is checked by the harness on every run.) -/
+theorem C12_all_modes_eq_each {α : Type} [Add α] [Mul α] [One α] [Zero α] (K : Ktensor α) (X : Dense α)
+    (W : Option (Dense α)) (f : Option (Handle α)) (g : Handle α)
+    (hN : 2 ≤ K.factors.length) (hX : X.shape = K.shape) (hXwf : X.WF)
+    (hW : ∀ W', W = some W' → W'.shape = K.shape ∧ W'.WF) (k : Nat) (hk : k < K.factors.length) :
+    ∃ F G, evaluate K X W f (some g) = .ok ⟨F, some G⟩ ∧ G.length = K.factors.length ∧
+      G[k]? = some (mttkrpDef ⟨K.shape, wY K X W g⟩ K.factors K.ncomp k) := by
+  refine ⟨_, _, evaluate_ok K X W f (some g) (Or.inr rfl) hN hX hXwf hW, ?_, ?_⟩
+  · simp [mttkrpsDef, length_shape]
+  · simp [mttkrpsDef, length_shape, hk]
+
+/-- **The gradients are the exact partial derivatives of the objective.**  For every mode `k`,
+row `a` and component `r`: the objective, as a function of the single factor entry
+`A_k[a, r]`, has derivative `λ_r · G_k[a, r]` there, `G` the gradient list `evaluate` returns —
+for any handle pair that is a (loss, derivative) pair at the model values that occur.
+`evaluate` hands only the factor matrices to `mttkrps`, hence the factor `λ_r`; it is `1` for
+the models `gcp_opt` works with (see `C12_gradient_is_partial_derivative_unit_weights`). -/
+theorem C12_gradient_is_partial_derivative (K : Ktensor ℝ) (X : Dense ℝ) (W : Option (Dense ℝ)) (f g : Handle ℝ)
+    (k a r : Nat) (hN : 2 ≤ K.factors.length) (hWF : K.WF) (hX : X.shape = K.shape) (hXwf : X.WF)
+    (hW : ∀ W', W = some W' → W'.shape = K.shape ∧ W'.WF)
+    (hk : k < K.factors.length) (ha : a < (K.factors.getD k []).length) (hr : r < K.ncomp)
+    (hfg : ∀ i ∈ allSubs K.shape, HasDerivAt (f (X.get i)) (g (X.get i) (K.get i)) (K.get i)) :
+    ∃ G, evaluate K X W (some f) (some g) = .ok ⟨some (gcpObjective K X W f), some G⟩ ∧
+      HasDerivAt (fun t => gcpObjective (K.setEntry k a r t) X W f)
+        (K.weights.getD r 0 * (G.getD k []).get a r) ((K.factors.getD k []).get a r) := by
+  refine ⟨_, evaluate_ok K X W (some f) (some g) (Or.inl rfl) hN hX hXwf hW, ?_⟩
+  have h := gradient_is_partial K X W f g k a r hWF hk ha hr hfg
+  have e : (mttkrpsDef ⟨K.shape, wY K X W g⟩ K.factors K.ncomp).getD k []
+      = mttkrpDef ⟨K.shape, wY K X W g⟩ K.factors K.ncomp k := by
+    simp [mttkrpsDef, length_shape, hk]
+  rw [e]
+  exact h
+
+/-- With unit model weights (the normal form `gcp_opt` keeps its model in) the returned
+gradient entry is exactly the partial derivative. -/
+theorem C12_gradient_is_partial_derivative_unit_weights (K : Ktensor ℝ) (X : Dense ℝ) (W : Option (Dense ℝ))
+    (f g : Handle ℝ) (k a r : Nat) (hN : 2 ≤ K.factors.length) (hWF : K.WF) (hX : X.shape = K.shape)
+    (hXwf : X.WF) (hW : ∀ W', W = some W' → W'.shape = K.shape ∧ W'.WF)
+    (hk : k < K.factors.length) (ha : a < (K.factors.getD k []).length) (hr : r < K.ncomp)
+    (hunit : ∀ r < K.ncomp, K.weights.getD r 0 = 1)
+    (hfg : ∀ i ∈ allSubs K.shape, HasDerivAt (f (X.get i)) (g (X.get i) (K.get i)) (K.get i)) :
+    ∃ G, evaluate K X W (some f) (some g) = .ok ⟨some (gcpObjective K X W f), some G⟩ ∧
+      HasDerivAt (fun t => gcpObjective (K.setEntry k a r t) X W f)
+        ((G.getD k []).get a r) ((K.factors.getD k []).get a r) := by
+  obtain ⟨G, h1, h2⟩ := C12_gradient_is_partial_derivative K X W f g k a r hN hWF hX hXwf hW hk ha hr hfg
+  refine ⟨G, h1, ?_⟩
+  rwa [hunit r hr, one_mul] at h2
+
+/-- Parts A and B together: for every built-in objective, with the handles `fg_setup.setup`
+returns (as generated from the current source), admissible parameter, and all model values
+inside the returned lower bound, the gradient matrices of `evaluate` are the partial
+derivatives of the objective. -/
+theorem C12_gradient_is_partial_derivative_builtin (o : Objective) (p : ℝ) (K : Ktensor ℝ) (X : Dense ℝ)
+    (W : Option (Dense ℝ)) (k a r : Nat) (hp : ParamOK o p)
+    (hN : 2 ≤ K.factors.length) (hWF : K.WF) (hX : X.shape = K.shape) (hXwf : X.WF)
+    (hW : ∀ W', W = some W' → W'.shape = K.shape ∧ W'.WF)
+    (hk : k < K.factors.length) (ha : a < (K.factors.getD k []).length) (hr : r < K.ncomp)
+    (hunit : ∀ r < K.ncomp, K.weights.getD r 0 = 1)
+    (hdom : ∀ i ∈ allSubs K.shape, (setupTable o).lower.holds (K.get i)) :
+    ∃ G, evaluate K X W (some fun x m => (setupTable o).fn.evalR x p m)
+          (some fun x m => (setupTable o).grad.evalR x p m)
+        = .ok ⟨some (gcpObjective K X W fun x m => (setupTable o).fn.evalR x p m), some G⟩ ∧
+      HasDerivAt (fun t => gcpObjective (K.setEntry k a r t) X W fun x m => (setupTable o).fn.evalR x p m)
+        ((G.getD k []).get a r) ((K.factors.getD k []).get a r) :=
+  C12_gradient_is_partial_derivative_unit_weights K X W _ _ k a r hN hWF hX hXwf hW hk ha hr hunit
+    (fun i hi => C12_deriv_table o (X.get i) p (K.get i) hp (hdom i hi))
+
+/-- What `evaluate` refuses: no handle at all, a model with fewer than two modes, data of
+another shape. -/
+theorem C12_evaluate_rejects {α : Type} [Add α] [Mul α] [One α] [Zero α] (K : Ktensor α) (X : Dense α)
+    (W : Option (Dense α)) (f g : Option (Handle α)) :
+    evaluate K X W none none = .error .reject ∧
+    (K.factors.length < 2 → evaluate K X W f g = .error .reject) ∧
+    (X.shape ≠ K.shape → evaluate K X W f g = .error .reject) := by
+  refine ⟨by simp [evaluate], ?_, ?_⟩
+  · intro h
+    by_cases h0 : (f.isNone && g.isNone) = true <;> simp only [evaluate, h0, h, if_true] <;> rfl
+  · intro h
+    have h' : ¬ K.factors.length < 2 ∨ K.factors.length < 2 := by omega
+    by_cases h0 : (f.isNone && g.isNone) = true <;> rcases h' with h1 | h1 <;>
+      simp only [evaluate, h0, h1, h, ne_eq, not_false_eq_true, if_true, if_false] <;> rfl
+
+/-- `estimate_helper`'s two passes: whatever the gathered factor rows `Uexp[0..ndim-1]`
+(each with `n` rows) are, afterwards `Zexp[k]` has `n` rows and its entry `(s, r)` is the
+product of the `(s, r)` entries of all `Uexp[j]`, `j ≠ k` — `Zexp[k] = ∏_{j≠k} Uexp[j]`. -/
+theorem C12_zexp {α : Type} [CommSemiring α] (Uexp : List (Mat α)) (ndim n : Nat)
+    (hU : Uexp.length = ndim) (h2 : 2 ≤ ndim) (hUn : ∀ j < ndim, (Uexp.getD j []).length = n)
+    (k : Nat) (hk : k < ndim) :
+    ((zexpOf Uexp ndim).getD k []).length = n ∧
+    ∀ s r, ((zexpOf Uexp ndim).getD k []).get s r = ((Uexp.eraseIdx k).map fun A => A.get s r).prod :=
+  zexpOf_good Uexp ndim n hU h2 hUn k hk
+
+/-- `estimate_helper` on in-range sample subscripts (repeats allowed) of a model with unit
+weights: the model values are the values the Kruskal tensor denotes at the samples, and
+`Zexp[k][s, r] = ∏_{n≠k} A_n[i_n, r]` for the `s`-th sample `i`. -/
+theorem C12_estimate_helper {α : Type} [CommRing α] (K : Ktensor α) (subs : List (List Nat))
+    (hne : subs ≠ []) (hN : 2 ≤ K.factors.length) (hWF : K.WF)
+    (hunit : ∀ r < K.ncomp, K.weights.getD r 0 = 1) (hin : ∀ i ∈ subs, InBounds K.shape i) :
+    ∃ Zexp, estimateHelper K.factors subs = .ok (subs.map K.get, Zexp) ∧
+      ∀ k s r, k < K.factors.length → s < subs.length →
+        (Zexp.getD k []).get s r = compExcept K.factors k r (subs.getD s []) := by
+  refine ⟨_, ?_, fun k s r hk hs => zexp_get K subs hN hin k s r hk hs⟩
+  rw [estimateHelper_ok K subs hne hN hin, mvals_eq K subs hN hWF hunit hin]
+
+/-- A sample set with a single subscript column is refused (`Zexp[1] = …` fails). -/
+theorem C12_estimate_helper_rejects_one_mode {α : Type} [Add α] [Mul α] [Zero α] (A : Mat α)
+    (i : Nat) (rest : List (List Nat)) : estimateHelper [A] ([i] :: rest) = .error .reject := by
+  unfold estimateHelper
+  simp only [List.length_cons, List.length_nil, Nat.zero_add, gt_iff_lt, Nat.lt_irrefl, if_false]
+  cases h : (List.range 1).mapM fun k => gatherRows ([A].getD k []) (([i] :: rest).map fun s => s.getD k 0) with
+  | error e => cases e; rfl
+  | ok U => simp [bind, Except.bind]
+
+/-- **The sampled estimator evaluated on every entry with unit weights equals the exact
+evaluation** (objective and all gradient matrices), for a model with unit weights, at least
+two modes and no empty mode. -/
+theorem C12_estimate_full_sample {α : Type} [CommRing α] (K : Ktensor α) (X : Dense α) (f g : Handle α)
+    (hN : 2 ≤ K.factors.length) (hWF : K.WF) (hunit : ∀ r < K.ncomp, K.weights.getD r 0 = 1)
+    (hpos : 0 < numel K.shape) (hX : X.shape = K.shape) (hXwf : X.WF) :
+    estimate K (allSubs K.shape) X.data (List.replicate (numel K.shape) 1) (some f) (some g) none
+      = evaluate K X none (some f) (some g) :=
+  estimate_full_sample K X f g hN hWF hunit hpos hX hXwf
+
+/-- a concrete run of the model (non-vacuity of the hypotheses above: two modes, unit
+weights, well-formed data) -/
+example : evaluate (α := Int) ⟨[1, 1], [[[1, 2], [3, 4]], [[5, 6], [7, 8]]]⟩ ⟨[2, 2], [1, 2, 3, 4]⟩ none
+    (some fun x m => (m - x) * (m - x)) (some fun x m => 2 * (m - x))
+    = .ok ⟨some 4426, some [[[440, 512], [1056, 1228]], [[254, 360], [334, 472]]]⟩ := by rfl
+
+example : estimate (α := Int) ⟨[1, 1], [[[1, 2], [3, 4]], [[5, 6], [7, 8]]]⟩ (allSubs [2, 2]) [1, 2, 3, 4]
+    [1, 1, 1, 1] (some fun x m => (m - x) * (m - x)) (some fun x m => 2 * (m - x)) none
+    = .ok ⟨some 4426, some [[[440, 512], [1056, 1228]], [[254, 360], [334, 472]]]⟩ := by rfl
 
 end Pyttb
